@@ -214,7 +214,7 @@ func (c *Ctx) checkRunReturns(fn *ssa.Function) {
 		seen[b] = true
 		for _, in := range b.Instrs {
 			if r, ok := in.(*ssa.Return); ok {
-				k, isK := constInt(r.Results[0])
+				k, isK := constInt(retVal(r, 0))
 				if !isK || k == 0 {
 					good = false
 				}
@@ -321,11 +321,11 @@ func (c *Ctx) nilOKScan(fns []*ssa.Function, report func(fn *ssa.Function, r *ss
 		}
 		examined++
 		for _, r := range returnsOf(fn) {
-			if ok, isC := constBool(r.Results[n-1]); !isC || !ok {
+			if ok, isC := constBool(retVal(r, n-1)); !isC || !ok {
 				continue
 			}
 			for i := 0; i < n-1; i++ {
-				if nillable(res.At(i).Type()) && isNilConst(r.Results[i]) {
+				if nillable(res.At(i).Type()) && isNilConst(retVal(r, i)) {
 					report(fn, r)
 				}
 			}
@@ -437,7 +437,7 @@ func (c *Ctx) errCovered(fn *ssa.Function, errIdx int, isValidatorCall func(*ssa
 		}
 	})
 	for _, r := range returnsOf(fn) {
-		e := r.Results[errIdx]
+		e := retVal(r, errIdx)
 		for _, leaf := range phiLeaves(e) {
 			if call, ok := leaf.(*ssa.Call); ok && isValidatorCall(call) {
 				continue // returns the validator's verdict
@@ -1689,7 +1689,7 @@ func (c *Ctx) missReturnsError(call *ssa.Call, okIdx int, before ssa.Instruction
 			retErr := false
 			for _, in := range missSucc.Instrs {
 				if r, ok := in.(*ssa.Return); ok {
-					last := r.Results[len(r.Results)-1]
+					last := retVal(r, len(r.Results)-1)
 					if !isNilConst(last) {
 						retErr = true
 					}
@@ -1711,7 +1711,7 @@ func (c *Ctx) missReturnsError(call *ssa.Call, okIdx int, before ssa.Instruction
 						missSucc, okSucc := iff.Block().Succs[0], iff.Block().Succs[1]
 						retErr := false
 						for _, in := range missSucc.Instrs {
-							if r, ok := in.(*ssa.Return); ok && !isNilConst(r.Results[len(r.Results)-1]) {
+							if r, ok := in.(*ssa.Return); ok && !isNilConst(retVal(r, len(r.Results)-1)) {
 								retErr = true
 							}
 						}
